@@ -10,6 +10,7 @@ from hypothesis import strategies as st
 from core.bootstrap import HarnessError
 from core.outcome import Outcome, discard
 from gen.objects import fitted_case
+from gen.samples import WITH_BOOLS
 
 PID = "C10"
 RULE = (
@@ -51,7 +52,7 @@ def strategy(tier):
         }
     )
     return st.tuples(
-        fitted_case(CLASSES, min_features=2, max_features=5, dev_modes=("none", "none", "same")),
+        fitted_case(CLASSES, min_features=2, max_features=5, dev_modes=("none", "none", "same"), cat_flavours=WITH_BOOLS),
         st.lists(variant, min_size=4, max_size=7),
     ).map(lambda t: dict(t[0], variants=t[1]))
 
